@@ -196,10 +196,13 @@ fn all_decodable(reply: &str, ty: Option<&str>) -> bool {
 }
 
 /// a reply that answers every id of `start..start+n` exactly once and nothing else
-fn is_complete_reply(start: u64, n: usize, reply: &str) -> bool {
+/// (`ws`: on the WS client the answers may share the array with server pushes; an HTTP reply consists of responses only)
+fn is_complete_reply(start: u64, n: usize, reply: &str, ws: bool) -> bool {
 	let Ok(Value::Array(a)) = serde_json::from_str::<Value>(reply) else { return false };
 	let r = reply_entries(reply);
-	if r.len() != a.len() || r.len() != n {
+	// every element is one of the batch's answers or a server push (a notification of some kind)
+	let pushes = a.iter().filter(|e| msg_kind(e) == MsgKind::Notification && e.get("jsonrpc").and_then(|j| j.as_str()) == Some("2.0")).count();
+	if r.len() + (if ws { pushes } else { 0 }) != a.len() || r.len() != n {
 		return false;
 	}
 	let mut ids: Vec<u64> = r.iter().filter_map(|(id, _)| id_number(id)).collect();
@@ -302,8 +305,24 @@ fn run_ws_case(out: &mut Out, lines: &[String]) {
 						});
 						if let Err(e) = batch_oracle(p.start, p.n, &reply, comp, p.ty.as_deref()) {
 							verdict = Err(e);
-						} else if is_complete_reply(p.start, p.n, &reply) && all_decodable(&reply, p.ty.as_deref()) && !matches!(comp, Comp::Batch { .. }) {
+						} else if is_complete_reply(p.start, p.n, &reply, true) && all_decodable(&reply, p.ty.as_deref()) && !matches!(comp, Comp::Batch { .. }) {
 							verdict = Err(format!("a complete, correct reply made the batch fail: {comp:?}"));
+						}
+					}
+				}
+				if obs.literal.is_none() {
+					// every element of an array has the effect it would have alone, or the whole array is refused
+					if array_has_response(&reply) && obs.fatal.is_none() && obs.comps.is_empty() && verdict.is_ok() {
+						verdict = Err(format!("the responses inside the array {reply} took no effect: no batch completed and the connection was not given up"));
+					}
+					for (op, p) in &pending {
+						if is_complete_reply(p.start, p.n, &reply, true) && all_decodable(&reply, p.ty.as_deref()) && verdict.is_ok() {
+							verdict = Err(format!(
+								"batch operation {op} (ids {}..{}) was answered completely by {reply} but did not complete: {}",
+								p.start,
+								p.start + p.n as u64,
+								obs.render()
+							));
 						}
 					}
 				}
@@ -311,7 +330,7 @@ fn run_ws_case(out: &mut Out, lines: &[String]) {
 					nontrivial = true;
 					out.count("ws.fatal");
 					// a complete correct reply for a pending batch must never kill the connection
-					if pending.values().any(|p| is_complete_reply(p.start, p.n, &reply)) {
+					if pending.values().any(|p| is_complete_reply(p.start, p.n, &reply, true)) {
 						verdict = Err(format!("a complete, correct batch reply was rejected: {:?}", obs.fatal));
 					}
 				}
@@ -408,7 +427,7 @@ fn run_http_case(out: &mut Out, lines: &[String]) {
 					if matches!(comp, Comp::Batch { .. }) {
 						verdict = Err(format!("a reply that is no legal message was accepted by the http batch: {comp:?}"));
 					}
-				} else if is_complete_reply(ids[0], n, &reply) && all_decodable(&reply, ty.as_deref()) && !matches!(comp, Comp::Batch { .. }) {
+				} else if is_complete_reply(ids[0], n, &reply, false) && all_decodable(&reply, ty.as_deref()) && !matches!(comp, Comp::Batch { .. }) {
 					verdict = Err(format!("a complete, correct reply made the http batch fail: {comp:?}"));
 				}
 				out.count(match (&comp, ty.is_some()) {
@@ -587,7 +606,7 @@ fn gen_reply(rng: &mut Rng, out: &mut Out, start: u64, n: usize, str_ids: bool, 
 			v
 		}
 	};
-	let shape = if perm.is_some() { 0 } else { rng.below(14) };
+	let shape = if perm.is_some() { 0 } else { *rng.pick(&[0u64, 1, 2, 3, 4, 5, 6, 7, 8, 9, 10, 10, 10, 11, 12, 13, 14, 14]) };
 	let mut extra: Vec<String> = vec![];
 	match shape {
 		0..=3 => out.count("reply.permutation"),
@@ -658,6 +677,13 @@ fn gen_reply(rng: &mut Rng, out: &mut Out, start: u64, n: usize, str_ids: bool, 
 				extra.push("{\"jsonrpc\":\"2.0\",\"method\":\"sub\",\"params\":{\"subscription\":\"nobody\",\"result\":1}}".into());
 			}
 			out.count("reply.with-notifications");
+		}
+		14 => {
+			// the reply shares its array with server pushes of every kind, at any position
+			for _ in 0..rng.range(1, 3) {
+				extra.push(push_object(rng, &["\"S0\"".to_string(), "\"S1\"".to_string(), "\"S2\"".to_string(), "\"S3\"".to_string()]));
+			}
+			out.count("reply.mixed-with-pushes");
 		}
 		11 => {
 			ids.clear();
